@@ -181,25 +181,25 @@ func toCompsP(t types.Type, prefix string, v Value, put func(suffix string, tm *
 
 // State is the symbolic machine state at a program point.
 type State struct {
-	Heap    map[string]*Term // heap components (arrays indexed by Int refs)
-	Cells   map[string]Value // address-taken locals
-	CellTy  map[string]types.Type
-	Vars    map[string]Value // source-level locals (from DebugRef), for contracts
-	Next    *Term            // allocation watermark
-	Written map[string][]*Term // per heap component: objects written since the last cut (nil element = wholesale)
-	Ghost   map[string]*Term
-	Locks   map[string]bool // lockset: names of held locks
-	Defers  []deferred
-	Shapes  map[string]*shape
-	Writes    []*writeRec
-	CutEpoch  int
-	FreshObjs map[*Term]int // objects allocated in this activation -> section epoch of the allocation (+1)
-	G         *Term // guard of the node being executed
-	noRecord  int
+	Heap         map[string]*Term // heap components (arrays indexed by Int refs)
+	Cells        map[string]Value // address-taken locals
+	CellTy       map[string]types.Type
+	Vars         map[string]Value   // source-level locals (from DebugRef), for contracts
+	Next         *Term              // allocation watermark
+	Written      map[string][]*Term // per heap component: objects written since the last cut (nil element = wholesale)
+	Ghost        map[string]*Term
+	Locks        map[string]bool // lockset: names of held locks
+	Defers       []deferred
+	Shapes       map[string]*shape
+	Writes       []*writeRec
+	CutEpoch     int
+	FreshObjs    map[*Term]int // objects allocated in this activation -> section epoch of the allocation (+1)
+	G            *Term         // guard of the node being executed
+	noRecord     int
 	PrevCutGuard *Term
 	PrevCutBlock *ssa.BasicBlock
-	PrevCut *State // state right after the previous section cut (nil: function entry)
-	Havoc   map[string]int // heap component prefixes havocked before materialisation -> epoch
+	PrevCut      *State         // state right after the previous section cut (nil: function entry)
+	Havoc        map[string]int // heap component prefixes havocked before materialisation -> epoch
 }
 
 type deferred struct {
